@@ -2,7 +2,7 @@
 //!
 //!   dx_shape --prop NONE                                   (build warm-up)
 //!   dx_shape gen --seed S --tier T --out DIR --repo /repo --self /verif/engines/dfirx/dx_shape
-//!                [--reuse] [--isolate pkg,pkg] [--failed FILE.json] [--dump]
+//!                [--reuse] [--isolate pkg,pkg] [--failed FILE.json] [--dump] [--only C22|C25|C26]
 //!
 //! `gen` writes the generated cargo workspace (see `emit.rs`). `--reuse` loads DIR/gen.json instead of
 //! regenerating (so that all passes of one check see exactly the same programs); `--isolate` emits the programs
@@ -33,6 +33,7 @@ fn main() {
     let mut isolate: Vec<String> = Vec::new();
     let mut failed: Option<String> = None;
     let mut dump = false;
+    let mut only: Option<String> = None;
     let mut it = argv.iter().skip(2);
     while let Some(a) = it.next() {
         match a.as_str() {
@@ -45,6 +46,7 @@ fn main() {
             "--isolate" => isolate = it.next().unwrap().split(',').filter(|s| !s.is_empty()).map(|s| s.to_string()).collect(),
             "--failed" => failed = Some(it.next().unwrap().clone()),
             "--dump" => dump = true,
+            "--only" => only = Some(it.next().unwrap().clone()),
             x => {
                 eprintln!("unknown argument {x}");
                 std::process::exit(3);
@@ -56,7 +58,7 @@ fn main() {
     let mut m: Manifest = if reuse && gen_json.exists() {
         serde_json::from_str(&std::fs::read_to_string(&gen_json).expect("read gen.json")).expect("parse gen.json")
     } else {
-        dx_shape::driver::generate(seed, &tier)
+        dx_shape::driver::generate(seed, &tier, only.as_deref())
     };
     if let Some(f) = failed {
         let map: BTreeMap<String, String> = serde_json::from_str(&std::fs::read_to_string(&f).expect("read failed file")).expect("parse failed file");
@@ -76,7 +78,7 @@ fn main() {
             eprintln!("REJECT {r}");
         }
     }
-    let tag = format!("s{seed}{}", &tier[..1]);
+    let tag = format!("s{seed}{}{}", &tier[..1], only.as_deref().map(|o| o.to_lowercase()).unwrap_or_default());
     let paths = Paths { repo, dx_shape: me };
     let members = write_workspace(&out, &m, &tag, dx_shape::driver::n_parts(&tier), &paths, &isolate);
     println!(
